@@ -24,7 +24,7 @@ def main():
     results = {}
     try:
         for pdir in sorted(SRC.glob("C??")):
-            for m in sorted(pdir.glob("m?")):
+            for m in sorted(pdir.glob("m*")):
                 name = f"{pdir.name}-{m.name}"
                 if only and name not in only and pdir.name not in only:
                     continue
